@@ -811,7 +811,11 @@ func (ev *specEnv) callExpr(e *ast.CallExpr, n *specNode) Val {
 		if sub.old != nil {
 			sub.old.inQuant--
 		}
-		return boolV(Term{fmt.Sprintf("(%s ((%s %s)) %s)", fname, bn, srt, body.S), sBool})
+		bs := body.S
+		if srt == sInt {
+			bs = absorbOffset(bs, bn)
+		}
+		return boolV(Term{fmt.Sprintf("(%s ((%s %s)) %s)", fname, bn, srt, bs), sBool})
 	case "len":
 		switch a := arg(0).(type) {
 		case Sl:
@@ -907,6 +911,21 @@ func (ev *specEnv) callExpr(e *ast.CallExpr, n *specNode) Val {
 		srt := x.heapSort(et)
 		A := x.classTermSort(ev.st, "elem:"+typeStr(et), arr(sInt, arr(sInt, srt)))
 		return ArrV{mkSelect(A, s.Base), et}
+	case "idxof", "atpos":
+		// idxof(s, k): choice function for a position of k in slice s. Its defining axiom fires only where
+		// a position hint atpos(s, i) was given, which keeps quantifier instantiation under control.
+		sl := arg(0).(Sl)
+		et := sl.GT.Underlying().(*types.Slice).Elem()
+		srt := x.heapSort(et)
+		A := x.classTermSort(ev.st, "elem:"+typeStr(et), arr(sInt, arr(sInt, srt)))
+		fn := quoteSym("idxof:" + srt)
+		mk := quoteSym("posmark:" + srt)
+		x.decls.add(fn, fmt.Sprintf("(declare-fun %s (%s Int Int %s) Int)\n(declare-fun %s (%s Int) Bool)\n(assert (forall ((a %s) (j Int)) (! (%s a j) :pattern ((%s a j)))))\n(assert (forall ((a %s) (o Int) (n Int) (k %s) (j Int)) (! (=> (and (<= o j) (< j (+ o n)) (= (select a j) k)) (and (<= 0 (%s a o n k)) (< (%s a o n k) n) (= (select a (+ o (%s a o n k))) k))) :pattern ((%s a o n k) (%s a j)))))",
+			fn, arr(sInt, srt), srt, mk, arr(sInt, srt), arr(sInt, srt), mk, mk, arr(sInt, srt), srt, fn, fn, fn, fn, mk))
+		if fname == "atpos" {
+			return boolV(app(sBool, mk, mkSelect(A, sl.Base), app(sInt, "+", sl.Off, argT(1))))
+		}
+		return Sc{app(sInt, fn, mkSelect(A, sl.Base), sl.Off, sl.Len, arg(1).(Sc).T), types.Typ[types.Int]}
 	case "concat":
 		return Sc{app(sStr, "str.cat_", arg(0).(Sc).T, arg(1).(Sc).T), types.Typ[types.String]}
 	case "strlt":
@@ -1092,4 +1111,57 @@ func litConst(t Term) (constant.Value, bool) {
 		v = constant.UnaryOp(token.SUB, v, 0)
 	}
 	return v, true
+}
+
+// absorbOffset rewrites a quantifier body so that the bound variable ranges over absolute cell
+// positions: the first index term of the form (+ X v) becomes the variable itself (v := v - X).
+// The quantifier keeps its meaning (the substitution is a bijection on Int) and its triggers
+// become arithmetic-free selects, which E-matching handles reliably.
+func absorbOffset(body, v string) string {
+	needle := " " + v + ")"
+	for from := 0; ; {
+		i := strings.Index(body[from:], needle)
+		if i < 0 {
+			return body
+		}
+		i += from
+		from = i + 1
+		// walk back over one balanced term T so that body[k:i] == "(+ T"
+		j := i
+		d := 0
+		inq := false
+		k := -1
+		for p := j - 1; p >= 0; p-- {
+			c := body[p]
+			if c == '|' {
+				inq = !inq
+				continue
+			}
+			if inq {
+				continue
+			}
+			if c == ')' {
+				d++
+			} else if c == '(' {
+				if d == 0 {
+					k = p
+					break
+				}
+				d--
+			}
+		}
+		if k < 0 || !strings.HasPrefix(body[k:], "(+ ") {
+			continue
+		}
+		X := body[k+3 : j]
+		// X must be a single balanced term not mentioning v
+		if !balanced(X) || strings.Contains(X, v) || X == "" || strings.Contains(X, "!q") {
+			continue
+		}
+		whole := "(+ " + X + " " + v + ")"
+		out := strings.ReplaceAll(body, whole, "\x00")
+		out = strings.ReplaceAll(out, v, "(- "+v+" "+X+")")
+		out = strings.ReplaceAll(out, "\x00", v)
+		return out
+	}
 }
